@@ -244,8 +244,15 @@ type Obs struct {
 
 var srcUnderlay = &net.UDPAddr{IP: net.IP{10, 0, 200, 1}, Port: 40123}
 
-// Run sends raw through the fast path of the real dataplane as if it had arrived over ing.
+// Run sends raw through the fast path of the real dataplane as if it had arrived over ing
+// (fresh packet processor).
 func Run(rt *rtgen.Router, raw []byte, ing rtgen.Ingress) (Obs, error) {
+	return RunOn(nil, rt, raw, ing)
+}
+
+// RunOn is Run on the given reused packet processor (nil: a fresh one): consecutive calls
+// with the same processor are what one processing queue of the router sees.
+func RunOn(proc *router.VerifProcessor, rt *rtgen.Router, raw []byte, ing rtgen.Ingress) (Obs, error) {
 	o := Obs{InLen: len(raw)}
 	var src *net.UDPAddr
 	if ing.Kind == rtgen.IngInt {
@@ -253,7 +260,13 @@ func Run(rt *rtgen.Router, raw []byte, ing rtgen.Ingress) (Obs, error) {
 	}
 	rt.DP.ClearRecords()
 	o.NowNs = time.Now().UnixNano()
-	res, err := rt.DP.VerifProcess(raw, ing.Link(), src)
+	var res router.VerifResult
+	var err error
+	if proc != nil {
+		res, err = proc.Process(raw, ing.Link(), src)
+	} else {
+		res, err = rt.DP.VerifProcess(raw, ing.Link(), src)
+	}
 	o.AfterNs = time.Now().UnixNano()
 	if err != nil {
 		return o, err
